@@ -206,7 +206,12 @@ def run(chk):
 def replay(chk, path):
     sc = json.load(open(path))["scenario"]
     build_harness("c19")
-    pre = ["before=%d" % int(sc["called_just_before"], 16)] if sc.get("called_just_before") else []
+    pre = []
+    if sc.get("called_just_before"):
+        try:
+            pre = ["before=%d" % int(sc["called_just_before"], 16)]
+        except ValueError:
+            log("the failure was seen right after a call of the other width (%s): re-run the check to see it again" % sc["called_just_before"])
     rc, out = harness("c19", ["one", "w=%d" % sc["w"], "x=%s" % sc["x"]] + pre)
     r = json.loads(out.strip().splitlines()[-1])
     nf = r["fail_hash_then_inverse"] + r["fail_inverse_then_hash"]
